@@ -812,6 +812,21 @@ func (w *world) effectiveRange() (want int64, haveLM bool) {
 	return want, false
 }
 
+// secondPhaseFrom: the first blob offset behind the registry-chunk rounding of the prefetch range. A registry that
+// fails from there serves the whole download of blob.Cache and fails whatever the decompress-and-cache phase reads behind it.
+func (w *world) secondPhaseFrom() int64 {
+	want, _ := w.effectiveRange()
+	if want < 1 {
+		want = 1
+	}
+	cs := w.c.BlobCS
+	limit := (want + cs - 1) / cs * cs
+	if size := w.blob.Size(); limit > size {
+		limit = size
+	}
+	return limit
+}
+
 // model-free oracle for the traffic of a prefetch body: clauses 2 and 3 of the property.
 func (w *world) checkPrefetchTraffic(reqs [][2]int64, res string) {
 	c := w.c
@@ -1131,10 +1146,15 @@ func (w *world) run(obs *Obs) {
 					switch o.Fault {
 					case "fail":
 						w.reg.failFrom = o.FailFrom
+					case "fail2":
+						w.reg.failFrom = w.secondPhaseFrom()
 					case "stall":
 						w.reg.stall = true
 					}
 				})
+				if o.Fault == "fail2" {
+					out.FailFrom = w.secondPhaseFrom()
+				}
 			}
 			mark := w.reg.logLen()
 			for k := 0; k < n; k++ {
